@@ -6,6 +6,18 @@ props = [json.loads(l) for l in open(os.path.join(HERE, "properties.jsonl"))]
 hook_commits = ["9fea0ac"]
 
 CHECKS = {
+ "C09": dict(engine="vdrv+cli", design="3/C09",
+   technique="runtime monitoring: metamorphic monitor: each generated program tree is rendered once with the abstractions (.define/#define, equ, .macro with parameters, nested calls, .include, .repeat) and once hand-expanded; both are assembled by the real assembler (in-process ASan/UBSan build, plus a real-CLI/Intel-HEX sample with real include files) and images and label addresses compared; .repeat oracle = byte replication of the first iteration",
+   text="Exploration: 6000 (quick) / 50000 (thorough) seeded programs over 6 CPUs (msp430, z80, mips, avr8, 6502, arm) with define/equ/macro (0..12 parameters, 4 argument kinds, nesting depth <= 8) / include (depth <= 4) / repeat (n <= 50, also inside macros and include files) structure; every feature class is required to be observed.",
+   note="Parameter names never equal another word of the same body; no labels inside macro or repeat bodies, no nested .repeat; definitions precede code. Pairs whose hand-expanded side is rejected are not compared. One known finding: .include inside a macro body is assembled after the rest of the expansion."),
+ "C14": dict(engine="vdrv+cli", design="3/C14",
+   technique="runtime monitoring: reference-model oracle: an independent Python MSP430 executor written from the family user's guide is compared with (a) single steps of the sanitizer-built simulator through the in-process driver from states tailored per opcode to carry/overflow/BCD boundaries (registers, SR flag by flag, memory diff, cycle count), and (b) naken_asm + naken_util -run on generated routines including break_io exit status",
+   text="Exploration, exhaustive over the first instruction word in the thorough tier: all 65536 first words x 48 states (2.05M steps) and 3000 generated routines; quick: a stratified sample covering every operation/size/source register/As/Ad combination (75k steps) and 150 routines. Facets the guide leaves undefined or that are uncertain are masked, not guessed.",
+   note="11 known findings keyed operation/size/facet (SUB/CMP .b carry, SUB/CMP V, XOR.B V, SXT C, RETI no-op, symbolic-destination cycle count, byte @Rn reading the register file - ASan). Byte @Rn/@Rn+ sources are excluded apart from a small sample because each crashes the worker. The reference is only as good as the reading of the guide."),
+ "C20": dict(engine="cli", design="3/C20",
+   technique="runtime monitoring: conservation/placement monitor over the real naken_asm CLI (ASan/UBSan build) on generated link jobs: Python writers build ELF32 relocatable objects and ar archives whose functions carry unique marker words, R_MIPS_26 call relocations and a known call graph; the written image and listing symbols are compared with the generator's knowledge",
+   text="Exploration: 304 (quick) / 15200 (thorough) seeded link jobs over archive and object shapes (1..6 sections, 1..40+ symbols, local/global, with/without archive index, > 256 symbols) x reference patterns (0..all functions, transitive calls, duplicate names): each referenced function's marker occurs exactly once at its symbol's address, non-call words equal the object's, every jal field equals the target's final address >> 2, unreferenced functions are absent, and reject jobs (unresolved callee, ELF64, foreign e_machine, byte-order mismatch) must not exit 0.",
+   note="9 known findings: the bare .o path (S17: size/offset swapped in Linker::get_code_from_symbol), big-endian objects parsed as little-endian (crash), foreign-machine / wrong-byte-order objects accepted. R_MIPS_26 against named function symbols only; addresses below 2^28."),
  "C10": dict(engine="vdrv+cli", design="3/C10",
    technique="runtime monitoring: reference-model oracle (Python interpreter of the documented .if condition grammar and of the .if/.ifdef/.ifndef/.else/.endif block structure) predicting the exact marker-byte sequence of marker-instrumented programs assembled by the ASan/UBSan library in the in-process driver; malformed conditionals and a sample of valid programs run through the real CLI for exit status and bin output",
    text="Exploration: 29244 enumerated condition expressions (up to 3 operators over defined(), !, ==, <, >, <=, >=, &&, ||, parentheses, numbers, defines, labels) and 4116 enumerated nestings to depth 3 with untaken bodies holding labels, defines, macro definitions, junk and directive names in comments/strings, plus seeded random conditions and trees to depth 10; trailing .ifdef probes detect symbol/define/macro leakage from skipped regions; 81 malformed cases must not exit 0.",
